@@ -26,7 +26,7 @@ RULE = ("scenario = (mode compress|decompress|copy, input of 1-14 input chunks, 
         "SIGXFSZ only when that error was injected with the default action, never exit 0 and never any other status or "
         "signal, stderr non-empty (naming the program) unless the error is EPIPE/EFBIG; non-trivial = the fault hits after "
         ">= 1 successful call of the same kind (mid-stream); distinct by (scenario, op, position, errno, sigpipe mode)")
-TIMEOUT = 60
+TIMEOUT = 30
 
 ERRS = {"EPIPE": errno.EPIPE, "EFBIG": errno.EFBIG, "ENOSPC": errno.ENOSPC, "EIO": errno.EIO}
 
